@@ -150,8 +150,11 @@ fn field<'a>(input: &mut &'a [u8]) -> ModalResult<Field<'a>, InputError<&'a [u8]
 /// Parse an inline struct type: (field1: type1, field2: type2).
 fn struct_type<'a>(input: &mut &'a [u8]) -> ModalResult<Type<'a>, InputError<&'a [u8]>> {
     literal("(").parse_next(input)?;
-    ws(input)?;
-    let fields: Vec<Field<'a>> = separated(0.., field, (ws, literal(","), ws)).parse_next(input)?;
+    // Only whitespace here: the comments in front of a field belong to that field (`ws` would
+    // swallow them).
+    whitespace_only(input)?;
+    let fields: Vec<Field<'a>> =
+        separated(0.., field, (ws, literal(","), whitespace_only)).parse_next(input)?;
     ws(input)?;
     literal(")").parse_next(input)?;
     Ok(Type::Object(List::from(fields)))
